@@ -196,19 +196,11 @@ class Label(Factory, Container, Collection):
 
     @inheritdoc(Container)
     def __iadd__(self, other):
-        if isinstance(other, Label):
-            if self.keySet != other.keySet:
-                raise ContainerException(
-                    "cannot add Labels because keys differ:\n    {}\n    {}".format(
-                        ", ".join(sorted(self.keys)), ", ".join(sorted(other.keys))
-                    )
-                )
-            self.entries += other.entries
-            for k in self.keys:
-                v = self(k)
-                v += other(k)
-            return self
-        raise ContainerException(f"cannot add {self.name} and {other.name}")
+        # merge with + first: it raises, leaving both operands untouched, if anything is incompatible
+        both = self + other
+        self.entries = both.entries
+        self.pairs = both.pairs
+        return self
 
     @inheritdoc(Container)
     def __mul__(self, factor):
@@ -429,19 +421,11 @@ class UntypedLabel(Factory, Container, Collection):
 
     @inheritdoc(Container)
     def __iadd__(self, other):
-        if isinstance(other, UntypedLabel):
-            if self.keySet != other.keySet:
-                raise ContainerException(
-                    "cannot add UntypedLabels because keys differ:\n    {}\n    {}".format(
-                        ", ".join(sorted(self.keys)), ", ".join(sorted(other.keys))
-                    )
-                )
-            self.entries += other.entries
-            for k in self.keys:
-                v = self(k)
-                v += other(k)
-            return self
-        raise ContainerException(f"cannot add {self.name} and {other.name}")
+        # merge with + first: it raises, leaving both operands untouched, if anything is incompatible
+        both = self + other
+        self.entries = both.entries
+        self.pairs = both.pairs
+        return self
 
     @inheritdoc(Container)
     def __mul__(self, factor):
@@ -667,16 +651,11 @@ class Index(Factory, Container, Collection):
 
     @inheritdoc(Container)
     def __iadd__(self, other):
-        if isinstance(other, Index):
-            if self.size != other.size:
-                raise ContainerException(
-                    f"cannot add Indexes because they have different sizes: ({self.size} vs {other.size})"
-                )
-            self.entries += other.entries
-            for x, y in zip(self.values, other.values):
-                x += y  # noqa: PLW2901
-            return self
-        raise ContainerException(f"cannot add {self.name} and {other.name}")
+        # merge with + first: it raises, leaving both operands untouched, if anything is incompatible
+        both = self + other
+        self.entries = both.entries
+        self.values = both.values
+        return self
 
     @inheritdoc(Container)
     def __mul__(self, factor):
@@ -908,16 +887,13 @@ class Branch(Factory, Container, Collection):
 
     @inheritdoc(Container)
     def __iadd__(self, other):
-        if isinstance(other, Branch):
-            if self.size != other.size:
-                raise ContainerException(
-                    f"cannot add Branches because they have different sizes: ({self.size} vs {other.size})"
-                )
-            self.entries += other.entries
-            for x, y in zip(self.values, other.values):
-                x += y  # noqa: PLW2901
-            return self
-        raise ContainerException(f"cannot add {self.name} and {other.name}")
+        # merge with + first: it raises, leaving both operands untouched, if anything is incompatible
+        both = self + other
+        self.entries = both.entries
+        self.values = both.values
+        for i, x in enumerate(self.values):
+            setattr(self, "i" + str(i), x)
+        return self
 
     @inheritdoc(Container)
     def __mul__(self, factor):
